@@ -301,6 +301,7 @@ func (c08) Run(t *testing.T, tape *core.Tape, rcx *RunCtx) *core.Result {
 	steps := 0
 	simTime := int64(0)
 	multi := 0
+	skipped := 0
 	strategy := ""
 
 	// compare every live handle with both models
@@ -467,6 +468,7 @@ func (c08) Run(t *testing.T, tape *core.Tape, rcx *RunCtx) *core.Result {
 				sim.Run()
 				steps += sim.Steps
 				multi += sim.Multi
+				skipped += sim.Skipped
 				strategy = sim.Strategy
 				simHash = append(simHash, sim.LogHash())
 				panics = append(panics, sim.Panics...)
@@ -509,6 +511,7 @@ func (c08) Run(t *testing.T, tape *core.Tape, rcx *RunCtx) *core.Result {
 	res.Nontrivial = reweights > 0
 	res.ShapeKey = strings.Join(shape, "")
 	res.Count("decisions_with_choice", int64(multi))
+	res.Count("yields_passed_by_a_lone_runnable_task", int64(skipped))
 	res.Count("reweight_operations", int64(reweights))
 	if rcx.Record {
 		res.Scenario = sc
